@@ -70,10 +70,28 @@ def _dmrg_params(cfg, n_sweeps=None, chi=None):
 def setup(cfg):
     key = (cfg['family'], cfg['conserve'], cfg['enlarge'], cfg['L'], cfg['n_ortho'])
     if key not in _SETUP:
+        # the input is a function of the configuration alone: its hidden randomness (numpy's global generator,
+        # ARPACK start vectors) gets fixed seeds of its own, whatever simulated process asks for it first
+        import tenpy.tools.math as math_mod
+        from checks.c18_world import _ArpackSeam
+        saved_state, saved_scipy = np.random.get_state(), math_mod.scipy
+        np.random.seed(12345)
+        math_mod.scipy = _ArpackSeam(12345)
+        try:
+            _compute_setup(cfg, key)
+        finally:
+            np.random.set_state(saved_state)
+            math_mod.scipy = saved_scipy
+    s = _SETUP[key]
+    return {'model': s['model'], 'ortho': [o.copy() for o in s['ortho']], 'guess': s['guess'].copy(),
+            'init_env_data': copy.deepcopy(s['init_env_data'])}
+
+
+def _compute_setup(cfg, key):
+    if True:
         from tenpy.algorithms import dmrg
         from tenpy.models.tf_ising import TFIChain
         from tenpy.networks import mps
-        np.random.seed(12345)
         if cfg['family'] == 'eng_seg':
             model = TFIChain({'J': 1.0, 'g': 1.5, 'L': 2, 'bc_MPS': 'infinite', 'conserve': cfg['conserve']})
             psi0 = mps.MPS.from_lat_product_state(model.lat, [['up']])
@@ -105,9 +123,6 @@ def setup(cfg):
             guess.apply_local_op(cfg['L'] // 2, 'Sigmaz', unitary=True)
             guess.apply_local_op(cfg['L'] // 2 - 2, 'Sigmaz', unitary=True)
             _SETUP[key] = {'model': model, 'ortho': ortho, 'guess': guess, 'init_env_data': None}
-    s = _SETUP[key]
-    return {'model': s['model'], 'ortho': [o.copy() for o in s['ortho']], 'guess': s['guess'].copy(),
-            'init_env_data': copy.deepcopy(s['init_env_data'])}
 
 
 # ---------------------------------------------------------------------------------------------
@@ -209,6 +224,15 @@ def reference(cfg, W):
         else:
             out['well_conditioned'] = False
     return world, out
+
+
+def run_digests(world, out):
+    """Digest of an uninterrupted run for the cross-interpreter determinism self-test (content of every checkpoint
+    and the final numbers, bit for bit)."""
+    r = out['results']
+    d = core.digest([[sv['path'], sv['content']] for sv in world.saves] +
+                    [repr(r['energy']), r['sweeps'], r['obs'].tobytes().hex(), r['S'].tobytes().hex()])
+    return d, d
 
 
 def gen_history(cfg, ref_ops, n_saves, rng):
@@ -328,6 +352,7 @@ def run_config(cfg, ctx, stats, W, rng):
                            'plan': {'cfg': cfg, 'faults': [], 'clock_seed': 0}})
         return violations
     ref = out['results']
+    stats['digests'].append([ctx.get('_idx')] + list(run_digests(world, out)))
     if not out.get('well_conditioned'):
         stats['probes']['algorithm_level_config_ill_conditioned_skipped'] += 1
         return violations
